@@ -386,11 +386,15 @@ Fixpoint c04_scan (c : cfg) (i : nat) (kept : list (Z * minput)) (prev : obs) (t
       ++ c04_scan c (S i)
            (match e with
             | EIncoming m => match mi_seq m with
-                             | FVal n => (* kept (or replacing what was kept) under n: a gated message above the expected number *)
+                             | FVal n => (* kept (or replacing what was kept) under n: a gated message above the expected number.
+                                            It is recorded only when it passes the header checks (then it is the message the engine
+                                            keeps); otherwise what sits under n is no longer known and the record for n is dropped *)
                                          let kept0 := filter (fun e0 => existsb (Z.eqb (fst e0)) (stash_keys (ob_st o))) kept in
                                          if existsb (Z.eqb n) (stash_keys (ob_st o)) && (ob_tgt prev <? n)
                                             && (gated_type (mi_type m) || (beq_bytes (mi_type m) T_SEQRESET && is_gapfill m))
-                                         then (n, m) :: kept0 else kept0
+                                         then (if msg_passes_header c (ob_tgt prev) m then (n, m) :: kept0
+                                               else filter (fun e0 => negb (fst e0 =? n)) kept0)
+                                         else kept0
                              | _ => filter (fun e0 => existsb (Z.eqb (fst e0)) (stash_keys (ob_st o))) kept
                              end
             | EDeliver => (* a buffered frame was processed: what is kept under the surviving keys is no longer known *)
@@ -409,7 +413,9 @@ Definition is_initiator (c : cfg) : bool := match c_role c with Initiator => tru
 (* codes: 701 disconnect changed the store; 702 connect changed the store beyond the Logon it sent; 703 a sent Logon that
    resets is not number 1 with 141=Y / counters not 2,1; 704 lower NewSeqNo changed the expected number or was not rejected;
    705 a reset without any cause (no reset option, no 141=Y seen or sent); 706 reset on logout/disconnect did not return both
-   counters to 1; 707 reply to a Logon carrying 141=Y does not echo the flag as number 1; 710 with ResetOnLogout a Logout
+   counters to 1; 707 the first Logon written in reply to an accepted Logon carrying 141=Y does not
+   echo the flag as number 1, or the next sender number is not 2 (3 when the received Logon is itself numbered above 1: a
+   ResendRequest was queued as number 2); 710 with ResetOnLogout a Logout
    that passed verification (handed to FromAdmin and accepted) did not reset the store, whatever its number *)
 Definition logon_resets (m : omsg) : bool := is_type T_LOGON m && opt_beq (field_of 141 (o_body m)) (B "Y").
 
@@ -459,7 +465,12 @@ Fixpoint c07_scan (c : cfg) (i : nat) (sent141 : bool) (prev : obs) (tr : list (
                   && (ob_inbuf prev =? 0) && match ob_st prev with ShLogon => true | _ => false end
                   && negb (is_initiator c) && existsb (fun x => match x with CbOnLogon => true | _ => false end) (ob_cbs o)
                then match filter (is_type T_LOGON) (ob_wire o) with
-                    | lg :: _ => if logon_resets lg && (o_seq lg =? 1) && (ob_snd o =? 2) then [] else [(i, 707)]
+                    | lg :: _ =>
+                        (* next sender number: 2, or 3 when the received Logon is itself numbered above 1 (MsgSeqNum too high
+                           against the fresh store: the ResendRequest queued by doTargetTooHigh took number 2) *)
+                        if logon_resets lg && (o_seq lg =? 1)
+                           && (ob_snd o =? match mi_seq m with FVal n => if 1 <? n then 3 else 2 | _ => 2 end)
+                        then [] else [(i, 707)]
                     | [] => [(i, 707)]
                     end
                else [])
